@@ -87,7 +87,7 @@ func drawSeedRaw(rt *rapid.T, examples []seedProg) seedProg {
 	case 10:
 		return seedProg{Src: genHigherOrder(rt), Kind: "higher-order"}
 	case 0:
-		g := &c05Gen{budget: rapid.IntRange(3, 16).Draw(rt, "budget"), pick: pick}
+		g := &c05Gen{budget: rapid.IntRange(3, 16).Draw(rt, "budget"), pick: pick, fnDecls: rapid.Bool().Draw(rt, "functionDeclarations")}
 		return seedProg{Src: g.program(rapid.IntRange(1, 3).Draw(rt, "depth"), rapid.IntRange(1, 3).Draw(rt, "top")), Kind: "control"}
 	case 1:
 		g := &c03Gen{budget: rapid.IntRange(4, 25).Draw(rt, "budget"), pick: pick}
